@@ -245,9 +245,9 @@ def gen_cases(rng, tier):
     if tier == "quick":
         fixed = fixed[:5]
     for ops in fixed:
-        cases.append(f"mode=host ops={ops} stride={stride} cont={cont}")
+        cases.append(f"mode=host ops={ops} stride={stride} cont={cont} near={0 if tier == 'quick' else 1}")
     for i in range(1 if tier == "quick" else 10):
-        cases.append(f"mode=host ops={gen_ops(rng, 3 if tier == 'quick' else 5)} stride={stride if tier == 'quick' else 7} cont={cont}")
+        cases.append(f"mode=host ops={gen_ops(rng, 3 if tier == 'quick' else 5)} stride={stride if tier == 'quick' else 7} cont={cont} near={0 if tier == 'quick' else 1}")
     return cases
 
 
